@@ -593,4 +593,570 @@ theorem entry_step (r : Rec) (H : r.Scope) (pre es : List Ent) (e : Ent)
       simp [areaPart, stepArea, List.filter_append, hty, hcb]
 
 
+
+theorem mapM_cons_ok {α β : Type} (f : α → E β) (a : α) (l : List α) (out : List β) (h : (a :: l).mapM f = .ok out) :
+    ∃ b bs, f a = .ok b ∧ l.mapM f = .ok bs ∧ out = b :: bs := by
+  rw [List.mapM_cons] at h
+  simp only [bind, Except.bind, pure, Except.pure] at h
+  cases hb : f a with
+  | error e => rw [hb] at h; cases h
+  | ok b =>
+    rw [hb] at h
+    cases hbs : l.mapM f with
+    | error e => rw [hbs] at h; cases h
+    | ok bs => rw [hbs] at h; cases h; exact ⟨b, bs, rfl, rfl, rfl⟩
+
+theorem foldlM_append_ok {α β : Type} (f : β → α → E β) (l1 l2 : List α) (acc acc' : β)
+    (h : (l1 ++ l2).foldlM f acc = .ok acc') : ∃ acc1, l1.foldlM f acc = .ok acc1 ∧ l2.foldlM f acc1 = .ok acc' := by
+  rw [List.foldlM_append] at h
+  simp only [bind, Except.bind] at h
+  cases h1 : l1.foldlM f acc with
+  | error e => rw [h1] at h; cases h
+  | ok acc1 => rw [h1] at h; exact ⟨acc1, rfl, h⟩
+
+/-- the reading loop over all written features -/
+theorem fold_main (r : Rec) (H : r.Scope) :
+    ∀ (es pre : List Ent), pre ++ es = pySort (entLt r) (allEntries r) →
+      ∀ (acc acc' : Rec × List Bio) (parts : List (List Bio)),
+        areaPart acc = pre.foldl (fun a e => stepArea r e a) (a0 r) →
+        es.mapM (entToBio r) = .ok parts → parts.flatten.foldlM readStep acc = .ok acc' →
+        areaPart acc' = (pre ++ es).foldl (fun a e => stepArea r e a) (a0 r) := by
+  intro es
+  induction es with
+  | nil =>
+    intro pre _ acc acc' parts hacc hm hf
+    simp only [List.mapM_nil, pure, Except.pure] at hm
+    cases hm
+    simp only [List.flatten_nil, List.foldlM_nil, pure, Except.pure] at hf
+    cases hf
+    simpa using hacc
+  | cons e es ih =>
+    intro pre hE acc acc' parts hacc hm hf
+    obtain ⟨p, ps, hp, hps, rfl⟩ := mapM_cons_ok _ _ _ _ hm
+    rw [List.flatten_cons] at hf
+    obtain ⟨acc1, h1, h2⟩ := foldlM_append_ok _ _ _ _ _ hf
+    have hstep := entry_step r H pre es e hE acc acc1 p hacc hp h1
+    have hE' : (pre ++ [e]) ++ es = pySort (entLt r) (allEntries r) := by rw [← hE]; simp
+    have := ih (pre ++ [e]) hE' acc1 acc' ps (by rw [hstep, hacc]; simp [List.foldl_append]) hps h2
+    rw [this]; simp
+
+
+/-! ### candidate clusters and regions are rebuilt from the record -/
+
+theorem nodup_candX (r : Rec) (c : Cand) (num : Option Nat) : Q.Nodup (candX r c num) := by
+  unfold candX
+  cases num <;> cases c.smiles <;> cases c.polymer <;>
+    first
+    | (simp [Q.Nodup, Q.keys, optQ]; done)
+    | (apply Q.nodup_set; simp [Q.Nodup, Q.keys, optQ])
+
+theorem get?_candX (r : Rec) (c : Cand) (k : Nat) :
+    Q.get? (candX r c (some k)) "protoclusters" = some (c.children.map fun (i : Nat) => strOfInt (i + 1)) ∧
+    Q.get? (candX r c (some k)) "kind" = some [c.kind] ∧
+    Q.get? (candX r c (some k)) "candidate_cluster_number" = some [strOfInt k] ∧
+    Q.get? (candX r c (some k)) "SMILES" = c.smiles.map (fun v => [v]) ∧
+    Q.get? (candX r c (some k)) "polymer" = c.polymer.map (fun v => [v]) ∧
+    Q.get? (candX r c (some k)) "note" = none ∧ Q.get? (candX r c (some k)) "codon_start" = none := by
+  unfold candX
+  cases c.smiles <;> cases c.polymer <;> simp [Q.get?_set, Q.get?, optQ]
+
+theorem parseNums_map (l : List Nat) :
+    parseNums (l.map fun (i : Nat) => strOfInt (i + 1)) = .ok (l.map fun (i : Nat) => ((i : Int) + 1)) := by
+  unfold parseNums
+  induction l with
+  | nil => rfl
+  | cons x xs ih =>
+    rw [List.map_cons, List.mapM_cons, ih]
+    simp [intOfStr_strOfInt, bind, Except.bind, pure, Except.pure]
+
+theorem maxList_le_of_all (l : List Int) (m : Int) (hne : l ≠ []) (h : ∀ x ∈ l, x ≤ m) : maxList l ≤ m :=
+  h _ (maxList_mem hne)
+
+theorem filterMap_locs_congr {α β : Type} (l1 : List α) (l2 : List β) (f : α → Loc) (g : β → Loc) (idx : List Nat)
+    (hlen : l1.length = l2.length) (h : ∀ i (hi : i < l2.length) (hi' : i < l1.length), f l1[i] = g l2[i]) :
+    idx.filterMap (fun i => (l1[i]?).map f) = idx.filterMap (fun i => (l2[i]?).map g) := by
+  induction idx with
+  | nil => rfl
+  | cons i rest ih =>
+    simp only [List.filterMap_cons]
+    by_cases hi : i < l2.length
+    · have hi' : i < l1.length := by omega
+      rw [List.getElem?_eq_getElem hi, List.getElem?_eq_getElem hi']
+      simp [h i hi hi', ih]
+    · have hi' : ¬ i < l1.length := by omega
+      rw [List.getElem?_eq_none (by omega), List.getElem?_eq_none (by omega)]
+      simp [ih]
+
+/-- a candidate cluster is rebuilt exactly from its written feature, given a record with the same
+    protocluster locations in the same positions -/
+theorem cand_fromBio (r r1 : Rec) (c : Cand) (k : Nat) (b : Bio) (hwf : c.WF r)
+    (hb : c.feat.toBio (candX r c (some k)) = .ok b)
+    (hlen : r1.len = r.len) (hcirc : r1.circular = r.circular) (hpl : r1.protos.length = r.protos.length)
+    (hlocs : ∀ i (hi : i < r.protos.length) (hi' : i < r1.protos.length), r1.protos[i].feat.loc = r.protos[i].feat.loc) :
+    Cand.fromBio r1 b = .ok c ∧ storedNumber b = k := by
+  have hX := nodup_candX r c (some k)
+  obtain ⟨g1, g2, g3, g4, g5, g6, g7⟩ := get?_candX r c k
+  have hfeat := hwf.feat
+  have hcod : c.feat.codon = none := by rw [hfeat]
+  have hq : c.feat.quals = [] := by rw [hfeat]
+  have hFQ := nodup_finalQuals c.feat (candX r c (some k)) (by rw [hq]; exact nodupNil)
+  rw [toBio_eq, hcod] at hb
+  cases hb
+  have look : ∀ key, Q.get? (Q.sortKeys (finalQuals c.feat (candX r c (some k)))) key
+      = Q.get? (finalQuals c.feat (candX r c (some k))) key := fun key => Q.get?_sortKeys hFQ key
+  have ext : ∀ key v, key ≠ "tool" → key ≠ "note" → Q.get? (candX r c (some k)) key = some v →
+      Q.get? (Q.sortKeys (finalQuals c.feat (candX r c (some k)))) key = some v :=
+    fun key v h2 h3 hk => by rw [look]; exact get?_FQ_extra c.feat _ hX key v hcod h2 h3 hk
+  have rest : ∀ key, key ≠ "tool" → key ≠ "note" → Q.get? (candX r c (some k)) key = none →
+      Q.get? (Q.sortKeys (finalQuals c.feat (candX r c (some k)))) key = none :=
+    fun key h2 h3 hk => by rw [look, get?_FQ_rest c.feat _ hX key hcod h2 h3 hk, hq]; rfl
+  have L1 := ext "protoclusters" _ (by decide) (by decide) g1
+  have L2 := ext "kind" _ (by decide) (by decide) g2
+  have L3 := ext "candidate_cluster_number" _ (by decide) (by decide) g3
+  refine ⟨?_, by simp [storedNumber, L3, intOfStr_strOfInt]⟩
+  have hne : (c.children.map fun (i : Nat) => ((i : Int) + 1)) ≠ [] := by simpa using hwf.nonempty
+  have hemp : (c.children.map fun (i : Nat) => ((i : Int) + 1)).isEmpty = false := by
+    cases hl : c.children.map fun (i : Nat) => ((i : Int) + 1) with
+    | nil => exact absurd hl hne
+    | cons _ _ => rfl
+  have hmax : ¬ (maxList (c.children.map fun (i : Nat) => ((i : Int) + 1)) > (r1.protos.length : Int)) := by
+    have := maxList_le_of_all _ (r1.protos.length : Int) hne (by
+      intro x hx
+      obtain ⟨i, hi, rfl⟩ := List.mem_map.1 hx
+      have := hwf.children i hi
+      omega)
+    omega
+  have K2 : Q.get? (Q.erase (Q.sortKeys (finalQuals c.feat (candX r c (some k)))) "protoclusters") "kind" = some [c.kind] := by
+    rw [Q.get?_erase_other _ _ _ (by decide)]; exact L2
+  have hkind : kinds.contains c.kind = true := by simpa using hwf.kind
+  have hsm : (Q.get? (Q.erase (Q.erase (Q.sortKeys (finalQuals c.feat (candX r c (some k)))) "protoclusters") "kind") "SMILES").bind List.head? = c.smiles := by
+    rw [Q.get?_erase_other _ _ _ (by decide), Q.get?_erase_other _ _ _ (by decide)]
+    cases hs : c.smiles with
+    | none => rw [rest "SMILES" (by decide) (by decide) (by rw [g4, hs]; rfl)]; rfl
+    | some v => rw [ext "SMILES" [v] (by decide) (by decide) (by rw [g4, hs]; rfl)]; rfl
+  have hpo : (Q.get? (Q.erase (Q.erase (Q.sortKeys (finalQuals c.feat (candX r c (some k)))) "protoclusters") "kind") "polymer").bind List.head? = c.polymer := by
+    rw [Q.get?_erase_other _ _ _ (by decide), Q.get?_erase_other _ _ _ (by decide)]
+    cases hs : c.polymer with
+    | none => rw [rest "polymer" (by decide) (by decide) (by rw [g5, hs]; rfl)]; rfl
+    | some v => rw [ext "polymer" [v] (by decide) (by decide) (by rw [g5, hs]; rfl)]; rfl
+  have hany : (c.children.map fun (i : Nat) => ((i : Int) + 1)).any (· < 1) = false := by
+    rw [List.any_eq_false]; intro x hx
+    obtain ⟨i, _, rfl⟩ := List.mem_map.1 hx
+    simp; omega
+  have hch : (c.children.map fun (i : Nat) => ((i : Int) + 1)).map (fun n => (n - 1).toNat) = c.children := by
+    rw [List.map_map]
+    conv => rhs; rw [← List.map_id c.children]
+    apply List.map_congr_left
+    intro i _
+    simp
+  have hwrap : (if r1.circular then some r1.len else none) = c.wrap := by rw [hcirc, hlen, hwf.wrap]
+  have hloc : connect (c.children.filterMap fun i => (r1.protos[i]?).map (·.feat.loc)) c.wrap = .ok c.feat.loc := by
+    rw [filterMap_locs_congr r1.protos r.protos (·.feat.loc) (·.feat.loc) c.children hpl
+      (fun i hi hi' => hlocs i hi hi')]
+    exact hwf.loc
+  unfold Cand.fromBio
+  simp only [L1, parseNums_map, hemp, Bool.false_eq_true, if_false, hmax, popReq_of_get? K2, hkind, Bool.not_true, hsm, hpo,
+    hany, hch, hwrap, hloc, Except.map]
+  congr 1
+  cases c with
+  | mk feat kind children smiles polymer wrap =>
+    simp only at hfeat ⊢
+    conv => rhs; rw [hfeat]
+
+
+
+theorem nodup_regX (r : Rec) (g : Reg) (num : Option Nat) : Q.Nodup (regX r g num) := by
+  unfold regX
+  cases num
+  · simp [Q.Nodup, Q.keys]
+  · apply Q.nodup_set; simp [Q.Nodup, Q.keys]
+
+theorem get?_regX (r : Rec) (g : Reg) (k : Nat) :
+    Q.get? (regX r g (some k)) "candidate_cluster_numbers" = some (g.cands.map fun (i : Nat) => strOfInt (i + 1)) ∧
+    Q.get? (regX r g (some k)) "subregion_numbers" = some (g.subs.map fun (i : Nat) => strOfInt (i + 1)) := by
+  unfold regX
+  simp [Q.get?_set, Q.get?]
+
+theorem nums_facts (l : List Nat) (m : Nat) (h : ∀ i ∈ l, i < m) :
+    (¬ ((!(l.map fun (i : Nat) => ((i : Int) + 1)).isEmpty && decide (maxList (l.map fun (i : Nat) => ((i : Int) + 1)) > (m : Int))) = true)) ∧
+    (l.map fun (i : Nat) => ((i : Int) + 1)).any (· < 1) = false ∧
+    (l.map fun (i : Nat) => ((i : Int) + 1)).map (fun n => (n - 1).toNat) = l ∧
+    ((l.map fun (i : Nat) => ((i : Int) + 1)).isEmpty = l.isEmpty) := by
+  refine ⟨?_, ?_, ?_, ?_⟩
+  · cases hl : l with
+    | nil => simp
+    | cons x xs =>
+      have hne : ((x :: xs).map fun (i : Nat) => ((i : Int) + 1)) ≠ [] := by simp
+      have := maxList_le_of_all _ (m : Int) hne (by
+        intro y hy
+        obtain ⟨i, hi, rfl⟩ := List.mem_map.1 hy
+        have := h i (by rw [hl]; exact hi)
+        omega)
+      simp only [Bool.and_eq_true, decide_eq_true_eq, not_and]
+      intro _; omega
+  · rw [List.any_eq_false]; intro x hx
+    obtain ⟨i, _, rfl⟩ := List.mem_map.1 hx
+    simp; omega
+  · rw [List.map_map]
+    conv => rhs; rw [← List.map_id l]
+    apply List.map_congr_left
+    intro i _
+    simp
+  · cases l <;> rfl
+
+theorem reg_fromBio (r r1 : Rec) (g : Reg) (k : Nat) (b : Bio) (hwf : g.WF r)
+    (hb : g.feat.toBio (regX r g (some k)) = .ok b)
+    (hcl : r1.cands.length = r.cands.length) (hsl : r1.subs.length = r.subs.length)
+    (hclocs : ∀ i (hi : i < r.cands.length) (hi' : i < r1.cands.length), r1.cands[i].feat.loc = r.cands[i].feat.loc)
+    (hslocs : ∀ i (hi : i < r.subs.length) (hi' : i < r1.subs.length), r1.subs[i].feat.loc = r.subs[i].feat.loc) :
+    Reg.fromBio r1 b = .ok g := by
+  have hX := nodup_regX r g (some k)
+  obtain ⟨g1, g2⟩ := get?_regX r g k
+  have hfeat := hwf.feat
+  have hcod : g.feat.codon = none := by rw [hfeat]
+  have hq : g.feat.quals = [] := by rw [hfeat]
+  have hFQ := nodup_finalQuals g.feat (regX r g (some k)) (by rw [hq]; exact nodupNil)
+  rw [toBio_eq, hcod] at hb
+  cases hb
+  have ext : ∀ key v, key ≠ "tool" → key ≠ "note" → Q.get? (regX r g (some k)) key = some v →
+      Q.get? (Q.sortKeys (finalQuals g.feat (regX r g (some k)))) key = some v :=
+    fun key v h2 h3 hk => by rw [Q.get?_sortKeys hFQ]; exact get?_FQ_extra g.feat _ hX key v hcod h2 h3 hk
+  have L1 := ext "candidate_cluster_numbers" _ (by decide) (by decide) g1
+  have L2 := ext "subregion_numbers" _ (by decide) (by decide) g2
+  obtain ⟨c1, c2, c3, c4⟩ := nums_facts g.cands r1.cands.length (by rw [hcl]; exact hwf.cands)
+  obtain ⟨s1, s2, s3, s4⟩ := nums_facts g.subs r1.subs.length (by rw [hsl]; exact hwf.subs)
+  have hboth : ((g.cands.map fun (i : Nat) => ((i : Int) + 1)).isEmpty && (g.subs.map fun (i : Nat) => ((i : Int) + 1)).isEmpty) = false := by
+    rw [c4, s4]
+    rcases hwf.nonempty with h | h
+    · cases hc : g.cands with
+      | nil => exact absurd hc h
+      | cons _ _ => rfl
+    · cases hc : g.subs with
+      | nil => exact absurd hc h
+      | cons _ _ => simp
+  have hloc : regionLoc ((g.subs.filterMap fun i => (r1.subs[i]?).map (·.feat.loc)) ++
+      (g.cands.filterMap fun i => (r1.cands[i]?).map (·.feat.loc))) = .ok g.feat.loc := by
+    rw [filterMap_locs_congr r1.subs r.subs (·.feat.loc) (·.feat.loc) g.subs hsl (fun i hi hi' => hslocs i hi hi'),
+      filterMap_locs_congr r1.cands r.cands (·.feat.loc) (·.feat.loc) g.cands hcl (fun i hi hi' => hclocs i hi hi')]
+    exact hwf.loc
+  unfold Reg.fromBio
+  simp only [L1, L2, Option.getD_some, parseNums_map, c1, s1, c2, s2, c3, s3, hboth, if_false, Bool.or_self,
+    Bool.false_eq_true, hloc, Except.map]
+  congr 1
+  cases g with
+  | mk feat cands subs =>
+    simp only at hfeat ⊢
+    conv => rhs; rw [hfeat]
+
+
+
+/-! ### the postponed candidate clusters -/
+
+theorem insertByNumberDesc_end (x : Bio) : ∀ (acc : List Bio), (∀ y ∈ acc, storedNumber x ≤ storedNumber y) →
+    insertByNumberDesc x acc = acc ++ [x] := by
+  intro acc
+  induction acc with
+  | nil => intro _; rfl
+  | cons y ys ih =>
+    intro h
+    have hy := h y (by simp)
+    have : ¬ storedNumber x > storedNumber y := by omega
+    simp [insertByNumberDesc, this, ih (fun z hz => h z (List.mem_cons_of_mem _ hz))]
+
+theorem foldl_insertDesc : ∀ (m acc : List Bio), (acc ++ m).Pairwise (fun a b => storedNumber b ≤ storedNumber a) →
+    m.foldl (fun acc x => insertByNumberDesc x acc) acc = acc ++ m := by
+  intro m
+  induction m with
+  | nil => intro acc _; simp
+  | cons x rest ih =>
+    intro acc hp
+    simp only [List.foldl_cons]
+    have hx : ∀ y ∈ acc, storedNumber x ≤ storedNumber y := fun y hy =>
+      (List.pairwise_append.1 hp).2.2 y hy x (by simp)
+    rw [insertByNumberDesc_end x acc hx, ih (acc ++ [x]) (by simpa using hp)]
+    simp
+
+/-- candidate features written with increasing numbers are added from the last to the first -/
+theorem candOrder_increasing (l : List Bio) (h : l.Pairwise (fun a b => storedNumber a ≤ storedNumber b)) :
+    candOrder l = l.reverse := by
+  unfold candOrder
+  have := foldl_insertDesc l.reverse [] (by
+    simp only [List.nil_append]
+    rw [List.pairwise_reverse]
+    exact h)
+  simpa using this
+
+/-- adding the candidates `k-1, …, 0` in front of `k, k+1, …` gives all of them -/
+theorem cand_phase (r : Rec) (H : r.Scope) : ∀ (k : Nat) (hk : k ≤ r.cands.length) (rk r' : Rec),
+    rk.len = r.len → rk.circular = r.circular → rk.protos.length = r.protos.length →
+    (∀ i (hi : i < r.protos.length) (hi' : i < rk.protos.length), rk.protos[i].feat.loc = r.protos[i].feat.loc) →
+    rk.cands = r.cands.drop k → rk.regs = [] →
+    ((List.range k).reverse.map (candB r)).foldlM (fun r b => do addCand r (← Cand.fromBio r b)) rk = .ok r' →
+    r'.cands = r.cands ∧ r'.protos = rk.protos ∧ r'.subs = rk.subs ∧ r'.regs = [] ∧ r'.len = r.len ∧ r'.circular = r.circular := by
+  intro k
+  induction k with
+  | zero =>
+    intro _ rk r' h1 h2 _ _ hc hr hf
+    simp only [List.range_zero, List.reverse_nil, List.map_nil, List.foldlM_nil, pure, Except.pure] at hf
+    cases hf
+    exact ⟨by simpa using hc, rfl, rfl, hr, h1, h2⟩
+  | succ k ih =>
+    intro hk rk r' h1 h2 h3 h4 hc hr hf
+    have hkl : k < r.cands.length := by omega
+    rw [List.range_succ, List.reverse_append, List.reverse_singleton, List.singleton_append, List.map_cons,
+      List.foldlM_cons] at hf
+    -- the feature written for candidate k
+    have hck : r.cands[k]? = some r.cands[k] := List.getElem?_eq_getElem hkl
+    obtain ⟨hwf, hin1, hin2, _⟩ := H.candsWF _ (List.getElem_mem hkl)
+    have hcod : (r.cands[k]).feat.codon = none := by rw [hwf.feat]
+    cases hw : (r.cands[k]).toBio r (some (k + 1)) with
+    | error e =>
+      unfold Cand.toBio at hw
+      have hany : (r.cands[k].children.any fun i => decide (i ≥ r.protos.length)) = false := by
+        rw [List.any_eq_false]; intro i hi; have := hwf.children i hi; simp; omega
+      rw [hany] at hw
+      simp only [Bool.false_eq_true, if_false, toBio_eq, hcod, Except.map] at hw
+      cases hw
+    | ok bs =>
+      obtain ⟨b, rfl, hb, _, _⟩ := Cand.toBio_shape r _ _ _ hw
+      have hcb : candB r k = b := by simp [candB, entBios, entToBio, hck, hw]
+      obtain ⟨hfrom, _⟩ := cand_fromBio r rk _ (k + 1) b hwf hb h1 h2 h3 h4
+      rw [hcb] at hf
+      simp only [hfrom, bind, Except.bind] at hf
+      have hadd : addCand rk r.cands[k] = .ok { rk with cands := r.cands[k] :: rk.cands } := by
+        unfold addCand
+        rw [inRecord_ok rk _ (by rw [h1]; exact ⟨hin1, hin2⟩)]
+        simp only [bind, Except.bind, pure, Except.pure]
+        have hfront := bisectL_front (fun (a b : Cand) => areaLt a.feat.loc b.feat.loc) r.cands[k] rk.cands (by
+          intro e he
+          rw [hc] at he
+          obtain ⟨j, hj, rfl⟩ := List.mem_iff_getElem.1 he
+          rw [List.getElem_drop]
+          have hjl : k + 1 + j < r.cands.length := by simp at hj; omega
+          exact (List.pairwise_iff_getElem.1 H.sortedC) k (k + 1 + j) hkl hjl (by omega))
+        rw [hfront, hr]
+        rfl
+      rw [hadd] at hf
+      have := ih (by omega) _ r' (by simpa using h1) (by simpa using h2) (by simpa using h3) (by simpa using h4)
+        (by simp only [hc]; exact (List.drop_eq_getElem_cons hkl).symm) (by simpa using hr) hf
+      simpa using this
+
+
+
+/-! ### the postponed regions -/
+
+theorem regionIndex_end (g : Reg) : ∀ (existing : List Reg) (i : Nat),
+    (∀ e ∈ existing, locationsOverlap g.feat.loc e.feat.loc = false ∧ areaLt g.feat.loc e.feat.loc = false) →
+    regionIndex g existing i = .ok (i + existing.length) := by
+  intro existing
+  induction existing with
+  | nil => intro i _; simp [regionIndex, pure, Except.pure]
+  | cons e rest ih =>
+    intro i h
+    obtain ⟨h1, h2⟩ := h e (by simp)
+    unfold regionIndex
+    simp only [h1, h2, Bool.false_eq_true, if_false]
+    rw [ih (i + 1) (fun x hx => h x (List.mem_cons_of_mem _ hx))]
+    simp only [List.length_cons]; congr 1; omega
+
+theorem reg_phase (r : Rec) (H : r.Scope) : ∀ (m k : Nat) (hk : k + m = r.regs.length) (rk r' : Rec),
+    rk.len = r.len → rk.cands.length = r.cands.length → rk.subs.length = r.subs.length →
+    (∀ i (hi : i < r.cands.length) (hi' : i < rk.cands.length), rk.cands[i].feat.loc = r.cands[i].feat.loc) →
+    (∀ i (hi : i < r.subs.length) (hi' : i < rk.subs.length), rk.subs[i].feat.loc = r.subs[i].feat.loc) →
+    rk.regs = r.regs.take k →
+    ((List.range' k m).map (regB r)).foldlM (fun r b => do addReg r (← Reg.fromBio r b)) rk = .ok r' →
+    r'.regs = r.regs ∧ r'.cands = rk.cands ∧ r'.protos = rk.protos ∧ r'.subs = rk.subs ∧ r'.len = rk.len ∧ r'.circular = rk.circular := by
+  intro m
+  induction m with
+  | zero =>
+    intro k hk rk r' _ _ _ _ _ hr hf
+    simp only [List.range'_zero, List.map_nil, List.foldlM_nil, pure, Except.pure] at hf
+    cases hf
+    refine ⟨?_, rfl, rfl, rfl, rfl, rfl⟩
+    rw [hr, List.take_of_length_le (by omega)]
+  | succ m ih =>
+    intro k hk rk r' h1 h2 h3 h4 h5 hr hf
+    have hkl : k < r.regs.length := by omega
+    rw [List.range'_succ, List.map_cons, List.foldlM_cons] at hf
+    have hgk : r.regs[k]? = some r.regs[k] := List.getElem?_eq_getElem hkl
+    obtain ⟨hwf, hin1, hin2, _⟩ := H.regsWF _ (List.getElem_mem hkl)
+    have hcod : (r.regs[k]).feat.codon = none := by rw [hwf.feat]
+    cases hw : (r.regs[k]).toBio r (some (k + 1)) with
+    | error e =>
+      unfold Reg.toBio at hw
+      have hany : ((r.regs[k]).cands.any (fun i => decide (i ≥ r.cands.length)) || (r.regs[k]).subs.any (fun i => decide (i ≥ r.subs.length))) = false := by
+        rw [Bool.or_eq_false_iff, List.any_eq_false, List.any_eq_false]
+        exact ⟨fun i hi => by have := hwf.cands i hi; simp; omega, fun i hi => by have := hwf.subs i hi; simp; omega⟩
+      rw [hany] at hw
+      simp only [Bool.false_eq_true, if_false, toBio_eq, hcod, Except.map] at hw
+      cases hw
+    | ok bs =>
+      obtain ⟨b, rfl, hb, _, _⟩ := Reg.toBio_shape r _ _ _ hw
+      have hcb : regB r k = b := by simp [regB, entBios, entToBio, hgk, hw]
+      have hfrom := reg_fromBio r rk _ (k + 1) b hwf hb h2 h3 h4 h5
+      rw [hcb] at hf
+      simp only [hfrom, bind, Except.bind] at hf
+      have hadd : addReg rk r.regs[k] = .ok { rk with regs := rk.regs ++ [r.regs[k]] } := by
+        unfold addReg
+        rw [inRecord_ok rk _ (by rw [h1]; exact ⟨hin1, hin2⟩)]
+        simp only [bind, Except.bind, pure, Except.pure]
+        rw [regionIndex_end _ rk.regs 0 (by
+          intro e he
+          rw [hr] at he
+          obtain ⟨j, hj, rfl⟩ := List.mem_iff_getElem.1 he
+          rw [List.getElem_take]
+          have hjk : j < k := by simp at hj; omega
+          have hjl : j < r.regs.length := by omega
+          exact ⟨(List.pairwise_iff_getElem.1 H.disjoint) j k hjl hkl hjk,
+                 (List.pairwise_iff_getElem.1 H.sortedR) j k hjl hkl hjk⟩)]
+        simp [insertAt]
+      rw [hadd] at hf
+      have := ih (k + 1) (by omega) _ r' (by simpa using h1) (by simpa using h2) (by simpa using h3) (by simpa using h4)
+        (by simpa using h5) (by simp only [hr]; rw [List.take_add_one, List.getElem?_eq_getElem hkl]; rfl) hf
+      simpa using this
+
+/-- modules (postponed as well) touch no area list -/
+theorem module_phase : ∀ (l : List Bio) (rk r' : Rec),
+    l.foldlM (fun r b => do pure { r with others := r.others ++ [← plainFromBio b] }) rk = .ok r' →
+    r'.regs = rk.regs ∧ r'.cands = rk.cands ∧ r'.protos = rk.protos ∧ r'.subs = rk.subs ∧ r'.len = rk.len ∧ r'.circular = rk.circular := by
+  intro l
+  induction l with
+  | nil => intro rk r' hf; simp only [List.foldlM_nil, pure, Except.pure] at hf; cases hf; simp
+  | cons b rest ih =>
+    intro rk r' hf
+    rw [List.foldlM_cons] at hf
+    simp only [bind, Except.bind, pure, Except.pure] at hf
+    cases hp : plainFromBio b with
+    | error e => rw [hp] at hf; cases hf
+    | ok f =>
+      rw [hp] at hf
+      have := ih _ r' hf
+      simpa using this
+
+
+/-! ### the whole round trip -/
+
+theorem map_range_eq {α β : Type} (l : List α) (f : Nat → β) (g : α → β)
+    (h : ∀ i (hi : i < l.length), f i = g l[i]) : (List.range l.length).map f = l.map g := by
+  apply List.ext_getElem
+  · simp
+  · intro i h1 h2
+    simp only [List.getElem_map, List.getElem_range]
+    exact h i (by simpa using h2)
+
+/-- the re-read record has the same area lists, in the same order, with the same cross references -/
+theorem numbering_main (t : Bool) (r : Rec) (H : r.Scope) (bios : List Bio) (r' : Rec)
+    (hw : writeRecord r = .ok bios) (hr : readRecord r.len r.circular bios = .ok r') :
+    r'.subs.map (Sub.view t) = r.subs.map (Sub.view t) ∧
+    r'.protos.map (Proto.view t) = r.protos.map (Proto.view t) ∧
+    r'.cands = r.cands ∧ r'.cands.map (Cand.view t r') = r.cands.map (Cand.view t r) ∧
+    r'.regs = r.regs := by
+  -- the written features, entry by entry
+  unfold writeRecord at hw
+  simp only [bind, Except.bind, pure, Except.pure] at hw
+  cases hparts : (pySort (entLt r) (allEntries r)).mapM (entToBio r) with
+  | error e => rw [hparts] at hw; cases hw
+  | ok parts =>
+    rw [hparts] at hw
+    cases hw
+    unfold readRecord at hr
+    simp only [bind, Except.bind] at hr
+    cases hloop : parts.flatten.foldlM readStep (({ len := r.len, circular := r.circular } : Rec), []) with
+    | error e => rw [hloop] at hr; cases hr
+    | ok st =>
+      rw [hloop] at hr
+      obtain ⟨r1, post⟩ := st
+      simp only at hr
+      have hmain := fold_main r H _ [] (by simp) _ _ parts (by simp [areaPart, a0]) hparts hloop
+      obtain ⟨z1, z2, z3, z4, z5, z6, z7, z8⟩ := foldl_stepArea r (pySort (entLt r) (allEntries r)) (a0 r)
+      simp only [List.nil_append] at hmain
+      rw [← hmain] at z1 z2 z3 z4 z5 z6 z7 z8
+      obtain ⟨iS, iP, iC, iR⟩ := sorted_indices r H
+      simp only [areaPart, a0, List.nil_append, iS, iP, iC, iR] at z1 z2 z3 z4 z5 z6 z7 z8
+      -- candidate clusters
+      have hnum : ∀ i (hi : i < r.cands.length), storedNumber (candB r i) = ((i + 1 : Nat) : Int) := by
+        intro i hi
+        have hck : r.cands[i]? = some r.cands[i] := List.getElem?_eq_getElem hi
+        obtain ⟨hwf, _⟩ := H.candsWF _ (List.getElem_mem hi)
+        have hcod : (r.cands[i]).feat.codon = none := by rw [hwf.feat]
+        cases hwc : (r.cands[i]).toBio r (some (i + 1)) with
+        | error e =>
+          unfold Cand.toBio at hwc
+          have hany : (r.cands[i].children.any fun j => decide (j ≥ r.protos.length)) = false := by
+            rw [List.any_eq_false]; intro j hj; have := hwf.children j hj; simp; omega
+          rw [hany] at hwc
+          simp only [Bool.false_eq_true, if_false, toBio_eq, hcod, Except.map] at hwc
+          cases hwc
+        | ok bs =>
+          obtain ⟨b, rfl, hb, _, _⟩ := Cand.toBio_shape r _ _ _ hwc
+          have hcb : candB r i = b := by simp [candB, entBios, entToBio, hck, hwc]
+          rw [hcb]
+          exact (cand_fromBio r r _ (i + 1) b hwf hb rfl rfl rfl (fun _ _ _ => rfl)).2
+      have horder : candOrder (post.filter (·.type == "cand_cluster")) = (List.range r.cands.length).reverse.map (candB r) := by
+        rw [z7, candOrder_increasing, List.map_reverse]
+        rw [List.pairwise_map]
+        refine List.pairwise_lt_range.imp_of_mem ?_
+        intro i j hi hj hij
+        rw [hnum i (List.mem_range.1 hi), hnum j (List.mem_range.1 hj)]
+        omega
+      rw [horder] at hr
+      cases hcp : ((List.range r.cands.length).reverse.map (candB r)).foldlM (fun r b => do addCand r (← Cand.fromBio r b)) r1 with
+      | error e => simp only [bind, Except.bind] at hcp; rw [hcp] at hr; cases hr
+      | ok r2 =>
+        simp only [bind, Except.bind] at hcp
+        rw [hcp] at hr
+        simp only at hr
+        have hP1 : ∀ i (hi : i < r.protos.length) (hi' : i < r1.protos.length), r1.protos[i].feat.loc = r.protos[i].feat.loc := by
+          intro i hi hi'
+          have : r1.protos[i] = reP r i := by simp [z6]
+          rw [this]
+          obtain ⟨_, _, _, _, _, _, _, _, _, hloc, _⟩ := reP_spec t r H i hi
+          exact hloc
+        obtain ⟨c1, c2, c3, c4, c5, c6⟩ := cand_phase r H r.cands.length (Nat.le_refl _) r1 r2 z1 z2 (by simp [z6]) hP1
+          (by rw [z3]; simp) z4 hcp
+        -- regions
+        rw [z8] at hr
+        cases hrp : ((List.range r.regs.length).map (regB r)).foldlM (fun r b => do addReg r (← Reg.fromBio r b)) r2 with
+        | error e => simp only [bind, Except.bind] at hrp; rw [hrp] at hr; cases hr
+        | ok r3 =>
+          simp only [bind, Except.bind] at hrp
+          rw [hrp] at hr
+          simp only at hr
+          have hS2 : ∀ i (hi : i < r.subs.length) (hi' : i < r2.subs.length), r2.subs[i].feat.loc = r.subs[i].feat.loc := by
+            intro i hi hi'
+            have : r2.subs[i] = reS r i := by simp [c3, z5]
+            rw [this]
+            obtain ⟨_, _, _, _, _, _, hloc⟩ := reS_spec t r H i hi
+            exact hloc
+          obtain ⟨g1, g2, g3, g4, g5, g6⟩ := reg_phase r H r.regs.length 0 (by simp) r2 r3 c5 (by rw [c1]) (by simp [c3, z5])
+            (fun i hi hi' => by simp [c1]) hS2 (by rw [c4]; simp)
+            (by rw [← List.range_eq_range']; exact hrp)
+          obtain ⟨m1, m2, m3, m4, m5, m6⟩ := module_phase _ r3 r' hr
+          have hsubs : r'.subs = (List.range r.subs.length).map (reS r) := by rw [m4, g4, c3, z5]
+          have hprotos : r'.protos = (List.range r.protos.length).map (reP r) := by rw [m3, g3, c2, z6]
+          have hcands : r'.cands = r.cands := by rw [m2, g2, c1]
+          refine ⟨?_, ?_, hcands, ?_, by rw [m1, g1]⟩
+          · rw [hsubs, List.map_map]
+            exact map_range_eq r.subs _ _ (fun i hi => by
+              obtain ⟨_, _, _, _, _, hv, _⟩ := reS_spec t r H i hi
+              exact hv)
+          · rw [hprotos, List.map_map]
+            exact map_range_eq r.protos _ _ (fun i hi => by
+              obtain ⟨_, _, _, _, _, _, _, _, hv, _⟩ := reP_spec t r H i hi
+              exact hv)
+          · rw [hcands]
+            apply List.map_congr_left
+            intro c hc
+            unfold Cand.view Cand.coreLoc
+            have hcore : (childProtos r' c).map (·.core) = (childProtos r c).map (·.core) := by
+              unfold childProtos
+              rw [List.map_filterMap, List.map_filterMap, hprotos]
+              exact filterMap_locs_congr (List.map (reP r) (List.range r.protos.length)) r.protos
+                (fun x => x.core) (fun x => x.core) c.children (by simp) (fun i hi hi' => by
+                  simp only [List.getElem_map, List.getElem_range]
+                  obtain ⟨_, _, _, _, _, _, _, _, _, _, hcore, _⟩ := reP_spec t r H i hi
+                  exact hcore)
+            rw [hcore]
+
+
 end ASV.Serial
